@@ -244,9 +244,11 @@ def parse_stage(items, kind="pyx", jobs=4, workdir=None):
 class Module(object):
     """A test module: a tuple V of constants (contexts const / char) and functions (cstr / doc)."""
 
-    def __init__(self, name, kind="pyx"):
+    def __init__(self, name, kind="pyx", filler=False, table=True):
         self.name = name
         self.kind = kind
+        self.filler = filler    # add compressible text so that the zlib and bz2 branches of the string table qualify
+        self.table = table      # do the constants live in the module string table (compression cells matter)?
         self.tuple_items = []   # (case, ctx)
         self.funcs = []         # (fname, case, ctx)
 
@@ -275,12 +277,25 @@ class Module(object):
             else:
                 out.append("%s," % case.text)
         out.append(")" if self.tuple_items else "())")
+        if self.filler:
+            out.append("W = (%s)" % ", ".join("'%s'" % w for w in FILLER))
         return "\n".join(out) + "\n"
 
     def entries(self):
         """[(slot, case, ctx)] where slot addresses the observation in the child's report"""
         return [(("V", k), c, ctx) for k, (c, ctx) in enumerate(self.tuple_items)] + \
                [(("F", f), c, ctx) for f, c, ctx in self.funcs]
+
+
+def _filler():
+    import random
+    rng = random.Random(20260922)
+    vocab = ["alpha", "beta", "gamma", "delta", "epsilon", "zeta", "eta", "theta", "iota", "kappa", "lambda", "mu", "nu", "xi", "omicron",
+             "pi", "rho", "sigma", "tau", "upsilon", "phi", "chi", "psi", "omega"]
+    return [" ".join(rng.choice(vocab) for _ in range(30)) for _ in range(50)]
+
+
+FILLER = _filler()
 
 
 OBS_CHILD = r'''
@@ -365,14 +380,12 @@ def build_cells(build, cells, first_cell):
     first_flag = "-DCYTHON_COMPRESS_STRINGS=%s" % CELLS[first_cell]
     assert first_flag in cmd, build.cc_cmd
     so_name = os.path.basename(build.so)
-    for cell in cells:
-        if cell == first_cell:
-            continue
+    def one(cell):
         d = os.path.join(build.dir, "cell_" + cell)
         os.makedirs(d, exist_ok=True)
         c2 = []
         skip = False
-        for k, a in enumerate(cmd):
+        for a in cmd:
             if skip:
                 skip = False
                 continue
@@ -385,5 +398,11 @@ def build_cells(build, cells, first_cell):
             else:
                 c2.append(a)
         p = subprocess.run(c2, capture_output=True, text=True)
-        res[cell] = (d, "") if p.returncode == 0 else (None, (p.stdout + p.stderr)[-3000:])
+        return cell, ((d, "") if p.returncode == 0 else (None, (p.stdout + p.stderr)[-3000:]))
+    import concurrent.futures
+    others = [c for c in cells if c != first_cell]
+    if others:
+        with concurrent.futures.ThreadPoolExecutor(max_workers=len(others)) as ex:
+            for cell, r in ex.map(one, others):
+                res[cell] = r
     return res
